@@ -32,7 +32,8 @@ func main() { vh.Main() }
 
 const modPrefix = "github.com/smart-core-os/sc-golang/"
 
-var workloadNames = []string{"value", "collection", "router", "bus", "wrap", "group", "electric_waste", "parent_metadata"}
+var workloadNames = []string{"value", "collection", "router", "bus", "wrap", "group", "electric_waste", "parent_metadata",
+	"traits_a", "traits_b", "gen_routers", "wrap_streams"}
 
 func verifRoot() string {
 	if d := os.Getenv("VERIF_ROOT"); d != "" {
@@ -305,9 +306,12 @@ func genC11(o *vcoq.Out, r *vcoq.Rand, tier string) error {
 	o.CaseType = "c11case"
 	o.Judge = "judge"
 	o.Shard = 200
-	o.Rule = "one case per (location, function, function) with conflicting access sites in the generated lock table (" +
-		"does the race detector report a race whose two innermost sc-golang frames are these functions?); non-trivial: the pair has a write in both or in different functions. " +
-		"Workloads: 8 programs (value, collection, router, bus, wrap, group, electric+waste models, parent+metadata models), rounds of 250 ms on fresh objects, 4-16 goroutines per round chosen from the seed, " +
+	o.Rule = "KPair: one case per (location, function, function) with conflicting access sites in the generated lock table (" +
+		"does the race detector report a race whose two innermost sc-golang frames are these functions?). " +
+		"KReasons: the harness's count, per accepting branch of the model's compatibility check (lock / publication / go statement / WaitGroup / channel close / construction / same thread / closing thread / none), of all ordered conflicting site pairs, compared with the model's own count on Gen/Locks.v; no pair may be 'none'. " +
+		"KMutable: one case per location written after construction, with the reasons that order those writes against every conflicting site (recomputed by the model); none may be missing. " +
+		"Table: every struct field of pkg/resource, internal/minibus, pkg/router, pkg/wrap, pkg/group and every package under pkg/trait (protobuf messages excluded), the elements of slice/map fields incl. local aliases of them, and the locals captured by goroutines. " +
+		"Workloads: 12 programs (value, collection, router, bus, wrap, group, electric+waste, parent+metadata, all 34 trait packages through model + server + wrapped client in traits_a/traits_b, generated routers with concurrent Add/Get/Remove and routed streams, many concurrent streams on one wrapped client), rounds of 250 ms on fresh objects, 4-16 goroutines per round chosen from the seed, " +
 		"random mixes of reads/writes/subscribes/cancels incl. generated ids, interceptors and consumers that read what they are given. Every distinct race (pair of innermost sc-golang frames) is reported as a direct violation."
 	repo := repoDir()
 	root := verifRoot()
@@ -450,6 +454,39 @@ func genC11(o *vcoq.Out, r *vcoq.Rand, tier string) error {
 		}
 	}
 
+	// the accepting branch of every conflicting pair (mirror of Lockset.why), checked against the model
+	hist, muts := reasonStats(tb)
+	{
+		var keys []string
+		for k := range hist {
+			keys = append(keys, k)
+		}
+		sort.Strings(keys)
+		items := make([]string, len(keys))
+		js := map[string]any{}
+		for i, k := range keys {
+			items[i] = "(" + vcoq.Str(k) + ", " + vcoq.Int(hist[k]) + ")"
+			js[k] = hist[k]
+		}
+		coq := vcoq.App("KReasons", "["+strings.Join(items, "; ")+"]")
+		tags := []string{"reasons"}
+		for _, k := range keys {
+			tags = append(tags, "reason:"+k)
+		}
+		o.Add(vcoq.Case{Coq: coq, JSON: map[string]any{"reason_histogram": js}, Key: coq, NonTrivial: true, Tags: tags})
+	}
+	for _, m := range muts {
+		items := make([]string, len(m.Reasons))
+		tags := []string{"mutable"}
+		for i, r := range m.Reasons {
+			items[i] = vcoq.Str(r)
+			tags = append(tags, "late-write-ordered-by:"+r)
+		}
+		coq := vcoq.App("KMutable", vcoq.Str(m.Loc), vcoq.Int(m.LateWrites), "["+strings.Join(items, "; ")+"]")
+		o.Add(vcoq.Case{Coq: coq, JSON: map[string]any{"loc": m.Loc, "late_writes": m.LateWrites, "reasons": m.Reasons, "writers": m.Writers},
+			Key: coq, NonTrivial: true, Tags: tags})
+	}
+
 	// evidence
 	nW := 0
 	for _, s := range tb.Sites {
@@ -463,10 +500,28 @@ func genC11(o *vcoq.Out, r *vcoq.Rand, tier string) error {
 	}
 	o.Extra["coverage_extra"] = map[string]any{
 		"lock_table": map[string]any{"access_sites": len(tb.Sites), "write_sites": nW, "locations": len(locs), "closers": len(tb.Closers),
-			"function_pairs_with_conflicts": npairs, "site_pairs_checked_by_vm_compute": len(tb.Sites) * len(tb.Sites)},
+			"function_pairs_with_conflicts": npairs, "site_pairs_checked_by_vm_compute": len(tb.Sites) * len(tb.Sites),
+			"packages": tablePackages(tb), "reason_histogram_of_conflicting_pairs": hist,
+			"locations_written_after_construction": len(muts), "written_after_construction": muts},
 		"race_detector": map[string]any{"workloads": len(workloadNames), "seconds_per_workload": dur.Seconds(), "total_workload_seconds": seconds,
 			"operations": totalOps, "max_goroutines": maxG, "race_reports": totalReports, "distinct_races": len(order), "classes": classes,
 			"per_workload": wlStats, "build_s": buildS},
 	}
 	return nil
+}
+
+// tablePackages: number of locations per package in the table
+func tablePackages(tb *lockTable) map[string]int {
+	seen := map[string]bool{}
+	out := map[string]int{}
+	for _, s := range tb.Sites {
+		if seen[s.Loc] {
+			continue
+		}
+		seen[s.Loc] = true
+		if i := strings.Index(s.Loc, "."); i > 0 {
+			out[s.Loc[:i]]++
+		}
+	}
+	return out
 }
